@@ -777,13 +777,21 @@ func vActSelfDestruct(w *vWorld) {
 		var ok bool
 		a, ok = w.drawAddrWhere("addr", func(_ common.Address, acc *refstate.Account) bool { return acc != nil && acc.NewContract })
 		if !ok {
-			return // EIP-6780: only contracts created in this transaction are destroyed
+			// EIP-6780: only contracts created in this transaction are destroyed; create one first
+			vActCreate(w)
+			a, ok = w.drawAddrWhere("addr2", func(_ common.Address, acc *refstate.Account) bool { return acc != nil && acc.NewContract })
+			if !ok {
+				return
+			}
 		}
 		if g, e := w.sdb.IsNewContract(a), w.m.IsNewContract(ra(a)); g != e || !g {
 			w.fail("IsNewContract(%s)=%v model %v", vShortAddr(a), g, e)
 		}
 	} else {
 		a = w.drawAddr("addr")
+	}
+	if rapid.IntRange(0, 2).Draw(w.rt, "snapBeforeSD") == 0 {
+		w.snapshot()
 	}
 	if rapid.Bool().Draw(w.rt, "moveBalance") {
 		ben := w.drawAddr("beneficiary")
@@ -826,6 +834,9 @@ func vActRevert(w *vWorld) {
 		return
 	}
 	idx := rapid.IntRange(0, len(live)-1).Draw(w.rt, "revertTo")
+	if j := rapid.IntRange(0, len(live)-1).Draw(w.rt, "revertTo2"); j < idx {
+		idx = j // prefer deep reverts
+	}
 	popped := len(live) - idx
 	// what does the revert undo?
 	type fact struct{ exist, sd bool }
